@@ -240,6 +240,7 @@ def check_other(ctx, progs, rule="compress-eq", blocks=(1, 2), only=None):
     with concurrent.futures.ProcessPoolExecutor(max_workers=min(len(jobs), int(os.environ.get("CX_JOBS", "6")))) as ex:
         results = list(ex.map(_one_other, jobs))
     n = 0
+    oks_ = {}
     for path, nb, status, x, wrote, nnodes, where in sorted(results, key=lambda r: (r[0], r[1])):
         inst = "%s:%d-blocks" % (path, nb)
         key = "%s:%s:%d" % (rule, path, nb)
@@ -251,8 +252,16 @@ def check_other(ctx, progs, rule="compress-eq", blocks=(1, 2), only=None):
             ctx.fail(rule, inst, "%s could not be evaluated to a value graph for a run of %d blocks (%s): it panics, reads outside the run or uses a construct the evaluator does not model" % (path, nb, x), where=where, key=key + ":eval")
         else:
             n += 1
+            okk_ = not x and not wrote
+            oks_.setdefault(path, []).append(okk_)
             ctx.check(not x and not wrote, rule, inst, "state' == the specified compression function over %d consecutive blocks as value graphs (%d graph nodes)" % (nb, nnodes),
                       "%s does not compute its specified compression function over a run of %d blocks: state words %s differ%s" % (path, nb, x, "; the message buffer is modified" if wrote else ""), where=where, key=key)
+    # the census of rotation amounts is a cross-check of the same function
+    for path, oks in oks_.items():
+        if len(oks) >= 2 and all(oks):
+            tag = "sha512-reference" if "impl512" in path else "sha1" if "sha1" in path else "ripemd160" if "ripemd" in path else None
+            if tag:
+                ctx.subsume("rotations:%s" % tag, "%s equals its specified compression function as a value graph (compress-eq)" % path)
     return n
 
 
@@ -338,5 +347,7 @@ def check_sha256(ctx, progs, rule="compress-eq", cases=None, thorough=False):
             per_fn.setdefault((cfg, path), []).append(okk)
             ctx.check(okk, rule, inst, "state' == SHA-256 compression of %d consecutive blocks as value graphs (%d graph nodes); the message is not written" % (nb, nnodes),
                       "%s (%s) does not compute the SHA-256 compression function over a run of %d blocks: state words %s differ%s" % (path, cfg, nb, x, "; the message buffer is modified" if wrote else ""), where=where, key=key)
-    # a function whose every compared run (below, at and above its batch size, with a tail) equals the specification: the
+    for (cfg_, path_), oks in per_fn.items():
+        if "reference" in path_ and len(oks) >= 2 and all(oks):
+            ctx.subsume("rotations:sha256-reference", "%s equals the SHA-256 compression as a value graph (compress-eq)" % path_)
     return n
